@@ -19,17 +19,17 @@ def run_facts(ctx, verif, expected_path, kinds, name, lemma_files=()):
     for line in p.stdout.splitlines()[1:]:
         f = json.loads(line)
         if f["kind"] in kinds:
-            got[(f["file"], f["func"], f["kind"], f["expr"], f["n"])] = f
+            got[(f["file"], f["func"], f["kind"], f["expr"], f["n"], bool(f.get("sorted", False)))] = f
     exp = json.load(open(expected_path))["sites"]
-    want = {(e["file"], e["func"], e["kind"], e["expr"], e["n"]): e for e in exp}
+    want = {(e["file"], e["func"], e["kind"], e["expr"], e["n"], bool(e.get("sorted", False))): e for e in exp}
     new = sorted(set(got) - set(want))
     gone = sorted(set(want) - set(got))
     unclassified = [k for k, e in want.items() if e.get("classification") in (None, "", "UNCLASSIFIED")]
     detail = []
     if new:
-        detail.append("new or moved site(s) not classified: " + "; ".join(f"{k[2]} {k[0]}:{k[1]} [{k[3]}]" for k in new[:8]))
+        detail.append("new or moved site(s) not classified: " + "; ".join(f"{k[2]} {k[0]}:{k[1]} [{k[3]}] sorted={k[5]}" for k in new[:8]))
     if gone:
-        detail.append("classified site(s) no longer present: " + "; ".join(f"{k[2]} {k[0]}:{k[1]} [{k[3]}]" for k in gone[:8]))
+        detail.append("classified site(s) no longer present: " + "; ".join(f"{k[2]} {k[0]}:{k[1]} [{k[3]}] sorted={k[5]}" for k in gone[:8]))
     if unclassified:
         detail.append("unclassified: " + "; ".join(map(str, unclassified[:5])))
     # every lemma named by a classification must be a theorem of the named module
